@@ -57,13 +57,13 @@ class Case:
         self.path, self.data, self.mime, self.served, self.tags = path, data, mime, served, tags
 
 
-def check_doc(chk: Check, site: driver.Site, c: Case, view: str, tls_mode=None) -> None:
+def check_doc(chk: Check, site: driver.Site, c: Case, view: str, tls_mode=None, minimal: bool = False) -> None:
     sel = b"/" + c.path
     fam = reqs.VIEWS[view][0]
     if fam in ("gopher", "gopherp") and reqs.gopher_ambiguous(sel):
         chk.count("skipped_ambiguous_gopher_selector")
         return
-    req, tls = reqs.render(view, sel)
+    req, tls = reqs.render(view, sel, minimal_path=minimal)
     if tls_mode == "real":
         if not tls:
             return
@@ -82,7 +82,7 @@ def check_doc(chk: Check, site: driver.Site, c: Case, view: str, tls_mode=None) 
         return
     want = c.served
     sizeclass = len(want) if len(want) < 20 else "%d%+d" % ((len(want) + 2048) // 4096 * 4096, len(want) - (len(want) + 2048) // 4096 * 4096)
-    sig = (view, str(tls), sizeclass, c.tags)
+    sig = (view + (":minimal-escaping" if minimal else ""), str(tls), sizeclass, c.tags)
     body = None
     mime = None
     if fam == "gopher":
@@ -213,6 +213,11 @@ def run(chk: Check, sizes, nreal: int) -> None:
                 for c in cases:
                     for view in reqs.DOC_VIEWS:
                         check_doc(chk, site, c, view)
+                    # the same document asked for by a client that escapes only what a URL path must escape
+                    if any(ch in c.path for ch in b"!$&'()*+,;=:@"):
+                        for view in ("http", "https", "wap", "gemini", "spartan", "httphead"):
+                            check_doc(chk, site, c, view, minimal=True)
+                            chk.count("fetches_with_minimal_escaping")
                 # genuine TLS for a subset: every size class once per TLS view
                 seen = set()
                 for c in cases:
